@@ -131,6 +131,11 @@ impl Depacketizer for H264Depacketizer {
                 while offset + 2 < len {
                     let nal_len = u16::from_be_bytes([data[offset], data[offset + 1]]) as usize;
                     offset += 2;
+                    if nal_len == 0 {
+                        // A NAL unit has at least its header octet (RFC 6184 5.7.1);
+                        // do not emit one sample per two padding bytes.
+                        continue;
+                    }
 
                     if offset + nal_len > len {
                         tracing::warn!("STAP-A NAL length exceeds packet size");
